@@ -669,9 +669,14 @@ TRUNCS = {
 }
 
 
-def to_wire(lines, rng, p=0.6):
+def to_wire(lines, rng, p=0.6, relay=0.2):
     """send a share of the deliveries through the real gorums handlers as (possibly mutilated) wire messages"""
     ids = {}
+    nrep = 0
+    for l in lines[:3]:
+        t = l.split()
+        if len(t) > 2 and t[0] == "cfg" and t[2].isdigit():
+            nrep = int(t[2])
     out = []
     blocks = []
     for l in lines:
@@ -692,6 +697,14 @@ def to_wire(lines, rng, p=0.6):
             rest = [x for x in t[2:] if not x.startswith("expect=")]
             if kind == "timeout" and not any(x.startswith("from=") for x in rest):
                 rest.append("from=" + ids.get(t[2], "0"))
+            if kind == "propose" and nrep and rng.random() < relay:
+                # relayed by another peer: the handler attributes a proposal to the peer that delivered it, whatever
+                # proposer the block names (a non-leader must not be able to speak for the leader) — C03-r6m2
+                rest = [x for x in rest if not x.startswith("from=")] + [f"from={rng.randrange(1, nrep + 1)}"]
+                out.append("wire " + kind + " " + " ".join(rest))
+                if rng.random() < 0.5:
+                    out.append(l)      # the genuine delivery follows
+                continue
             r = rng.random()
             bls = any(x.startswith("cfg bls12") for x in lines[:3])
             if bls and r < 0.12:
@@ -733,6 +746,8 @@ class ReplicaFam(Family):
                 lines = p.run(rng.randrange(3, 9 if scheme != "bls12" else 6))
                 if self.focus == "c10" and k % 4 != 0:
                     lines = to_wire(lines, rng)
+                elif self.focus == "c03" and k % 3 == 1:
+                    lines = to_wire(lines, rng, p=0.35, relay=0.5)
                 yield (f"play-{scheme}-{rules}-n{n}-r{r}-{'adv' if adv else 'honest'}-{k}", lines)
         if self.focus in ("c09", "c10", "c03", "c07"):
             # asynchronous vote verification (the replica collects; verifications are held and released)
